@@ -256,6 +256,56 @@ pub fn run(cfg: &Cfg) {
             sink.oracle(keyid_hex(&parsed) == own_id && parsed == *k.public(), "a key read from its description has another id than its material determines", &format!("key {} description {}", k.label, v));
         }
     }
+    // ---- authorized keys whose declared scheme is not the one their material belongs to (the public
+    //      constructors that take a scheme accept any): such a key verifies with the algorithm it
+    //      declares, so a signature made with the material's real algorithm - listed under the id of the
+    //      mis-declared key - is not a valid signature of that key and must not count, alone or next
+    //      to the genuine key
+    {
+        use in_toto::crypto::{KeyType, SignatureScheme};
+        let schemes = [SignatureScheme::Ed25519, SignatureScheme::RsaSsaPssSha256, SignatureScheme::RsaSsaPssSha512, SignatureScheme::EcdsaP256Sha256, SignatureScheme::Unknown("ecdsa-sha2-nistp384".into())];
+        for k in pool.iter() {
+            for scheme in &schemes {
+                if scheme == k.public().scheme() {
+                    continue;
+                }
+                let mut declared: Vec<PublicKey> = vec![];
+                if *k.public().typ() == KeyType::Ecdsa {
+                    for algs in [None, Some(vec!["sha256".to_string(), "sha512".to_string()])] {
+                        let (b, sc) = (k.public().as_bytes().to_vec(), scheme.clone());
+                        if let Ok(Ok(p)) = guarded(move || PublicKey::from_ecdsa_with_keyid_hash_algorithm(b, sc, algs)) {
+                            declared.push(p);
+                        }
+                    }
+                }
+                {
+                    let (der, sc) = (k.pk8.clone(), scheme.clone());
+                    if let Ok(Ok(sk)) = guarded(move || in_toto::crypto::PrivateKey::from_pkcs8(&der, sc)) {
+                        declared.push(sk.public().clone());
+                    }
+                }
+                for p in declared {
+                    if p.scheme() == k.public().scheme() {
+                        continue;
+                    }
+                    let sig = valid_sig(&meta, k);
+                    for (entries, keys, t, what) in [
+                        (vec![Entry { label: keyid_hex(&p), sig: sig.clone(), valid_under_label: false, class: "misdeclared" }], vec![p.clone()], 1u32, "alone"),
+                        (vec![Entry { label: keyid_hex(&p), sig: sig.clone(), valid_under_label: false, class: "misdeclared" }, Entry { label: keyid_hex(k.public()), sig: sig.clone(), valid_under_label: true, class: "valid" }], vec![p.clone(), k.public().clone()], 2u32, "next to the genuine key"),
+                    ] {
+                        let j = block_json(&meta, &entries);
+                        let mb: Metablock = match serde_json::from_value(j.clone()) {
+                            Ok(m) => m,
+                            Err(_) => continue,
+                        };
+                        let res = guarded(move || mb.verify(t, keys.iter()).is_ok());
+                        sink.stat(&format!("misdeclared-scheme/{}/{}", what, match res { Ok(true) => "ACCEPTED", Ok(false) => "rejected", Err(()) => "panic" }));
+                        sink.oracle(res == Ok(false), &format!("a signature made with the material's real algorithm counts for a key that declares another scheme ({})", what), &format!("key {} declared as {:?}; threshold {} block {}", k.label, p.scheme(), t, j));
+                    }
+                }
+            }
+        }
+    }
     // ---- duplicate key id with different validity: recorded observation (outside the statement)
     let dup = vec![mk(a, true), mk(a, false)];
     let pud = vec![mk(a, false), mk(a, true)];
